@@ -13,7 +13,8 @@ for f in kf['findings']:
 known=[f for f in kf['findings'] if f['status']=='known']
 rows.append("")
 rows.append(f"Known (unrepaired) findings: {len(known)}.")
-d=re.sub(r'<!-- BEGIN:FIXES -->.*?<!-- END:FIXES -->','<!-- BEGIN:FIXES -->\n'+"\n".join(rows)+'\n<!-- END:FIXES -->',d,flags=re.S)
+_t='<!-- BEGIN:FIXES -->\n'+"\n".join(rows)+'\n<!-- END:FIXES -->'
+d=re.sub(r'<!-- BEGIN:FIXES -->.*?<!-- END:FIXES -->',lambda m:_t,d,flags=re.S)
 rows=["| change | needs, to manifest | detected by | first violation reported |","|---|---|---|---|"]
 for p in sorted(glob.glob(f'{ROOT}/seeded/*/meta.json')):
     m=json.load(open(p)); n=os.path.basename(os.path.dirname(p))
@@ -22,6 +23,7 @@ for p in sorted(glob.glob(f'{ROOT}/seeded/*/meta.json')):
     fv=det.get('first_violation','')
     fv=fv.split('::')[0].replace('subcheck=','').replace('|',' / ')[:90]
     rows.append(f"| {n} | {m.get('needs_to_manifest','')} | {by} | {fv} |")
-d=re.sub(r'<!-- BEGIN:SEEDED -->.*?<!-- END:SEEDED -->','<!-- BEGIN:SEEDED -->\n'+"\n".join(rows)+'\n<!-- END:SEEDED -->',d,flags=re.S)
+_t2='<!-- BEGIN:SEEDED -->\n'+"\n".join(rows)+'\n<!-- END:SEEDED -->'
+d=re.sub(r'<!-- BEGIN:SEEDED -->.*?<!-- END:SEEDED -->',lambda m:_t2,d,flags=re.S)
 open(f'{ROOT}/DESIGN.md','w').write(d)
 print("tables written")
